@@ -229,3 +229,38 @@ def mir_facts(crate="lol_html", features=(), release=False):
             _prune_cache(_cache_dir())
     with open(out_json) as fh:
         return json.load(fh)
+
+
+def witness_results():
+    """E-TYPE: compile the compile_fail witnesses and their (no_run) twins against REPO.
+    -> {test name: 'ok' | 'FAILED'}; nothing of lol-html is executed (twins are no_run)."""
+    import re
+    out_json = os.path.join(_cache_dir(), "witness.json")
+    with _Lock("facts"):
+        if not os.path.exists(out_json):
+            d = os.path.join(_cache_dir(), "witness")
+            shutil.rmtree(d, ignore_errors=True)
+            os.makedirs(os.path.join(d, "src"))
+            shutil.copyfile(os.path.join(VERIF, "witness", "src", "lib.rs"), os.path.join(d, "src", "lib.rs"))
+            man = open(os.path.join(VERIF, "witness", "Cargo.toml")).read().replace('path = "/repo"', 'path = "%s"' % REPO)
+            with open(os.path.join(d, "Cargo.toml"), "w") as fh:
+                fh.write(man)
+            lock = os.path.join(REPO, "Cargo.lock")
+            if os.path.exists(lock):
+                shutil.copyfile(lock, os.path.join(d, "Cargo.lock"))
+            env = _env()
+            env["CARGO_TARGET_DIR"] = os.path.join(CACHE, "target-witness")
+            p = subprocess.run(["cargo", "+nightly", "test", "--doc", "--offline"], cwd=d, env=env, stdout=subprocess.PIPE, stderr=subprocess.PIPE, timeout=1800)
+            txt = p.stdout.decode(errors="replace")
+            res = {}
+            for m in re.finditer(r"^test src/lib.rs - (\S+) \(line \d+\)( - compile fail| - compile)? \.\.\. (ok|FAILED)", txt, re.M):
+                kind = "compile_fail" if (m.group(2) or "").strip() == "- compile fail" else "twin"
+                res[m.group(1) + ":" + kind] = m.group(3)
+            if not res:
+                sys.stderr.write(p.stderr.decode(errors="replace")[-3000:])
+                raise EngineError("witness doctests produced no results (does the witness crate build?)")
+            with open(out_json, "w") as fh:
+                json.dump(res, fh)
+            shutil.rmtree(d, ignore_errors=True)
+    with open(out_json) as fh:
+        return json.load(fh)
